@@ -3,6 +3,7 @@ package props
 import (
 	"crypto/tls"
 	"encoding/json"
+	"errors"
 	"fmt"
 	"sort"
 	"strings"
@@ -234,6 +235,37 @@ func c14Scenarios() []c14Scenario {
 	}
 	out = append(out, stateVsClose("S10-auth-vs-stop", func(s *redis.Server) error { return s.Stop() }, true),
 		stateVsClose("S11-auth-vs-restart", func(s *redis.Server) error { return s.Restart() }, false))
+	// S14/S15: Stop / Restart sweeping three idle connections, two of which report an error
+	// from Close (whatever the sweep does with the errors, in whatever goroutines)
+	failingClose := func(name string, call func(s *redis.Server) error) c14Scenario {
+		return c14Scenario{Name: name, New: func() *sched.Run {
+			note := ""
+			return &sched.Run{
+				Body: func() {
+					s := srv.NewServer(srv.NewDouble())
+					if s.Start() != nil {
+						return
+					}
+					for i := 0; i < 3; i++ {
+						cl, o := sched.Dial(":6379")
+						if o.Status != "ok" {
+							return
+						}
+						cl.Do("PING")
+						if i != 1 {
+							cl.Raw().Peer().CloseErr = errors.New("failed to send closeNotify alert (but connection was closed anyway)")
+						}
+					}
+					if err := call(s); err != nil {
+						note = "error reported"
+					}
+				},
+				Verdict: c14Verdict(func() string { return note }),
+			}
+		}}
+	}
+	out = append(out, failingClose("S14-stop-with-failing-closes", func(s *redis.Server) error { return s.Stop() }))
+	out = append(out, failingClose("S15-restart-with-failing-closes", func(s *redis.Server) error { return s.Restart() }))
 	// S4: Stop concurrent with a client mid-command and a client connecting
 	lifecycle := func(name string, call func(s *redis.Server) error, idleFirst bool) c14Scenario {
 		return c14Scenario{Name: name, New: func() *sched.Run {
@@ -437,7 +469,7 @@ func init() {
 	fw.Register(&fw.Prop{
 		ID:    "C14",
 		Level: "model_checking",
-		Rule:  "15 scenarios on the real Start/accept loop/connection goroutines over the in-memory network: two clients doing CONFIG SET/GET; a client connecting while another CONFIG SETs requirepass; two clients running a command of every executor family (and AUTH sequences) against a race-free double; two clients connecting/disconnecting while the harness enumerates the registry (Conns, ConnByUUID, connection accessors); Stop concurrent with clients mid-command and connecting; Restart with an idle client; Restart after SetRequirePass; two TLS clients (real handshake) doing CONFIG SET while Stop runs; two application goroutines enumerating the registry at once right after a connect, with a further client connecting or with Stop running; two connected clients sending AUTH (one- and two-argument) and SELECT while Stop / Restart closes their connections; an application goroutine calling the configuration API (SetConfig, AppendConfig, RemoveConfig, ConfigString, SetRequirePass, RemoveRequirePass, SetTLSPort, ...) while two clients read the configuration literally and through patterns, write it, connect and authenticate. Every schedule within deviation bound 2 (thorough 3) is executed with every field access of the instrumented framework feeding a vector-clock happens-before oracle (edges: go, mutex/RWMutex release-acquire, sync.Map per key, connection write->read, dial->accept, close->EOF/error; scheduler hand-offs are NOT edges); locations found racy become scheduling points and the exploration is repeated until the racy set is stable. A race is an unordered pair of access sites on one location with at least one write; a WaitGroup's first increment from zero and a blocking Wait count as read and write of one location, as in the Go race detector.",
+		Rule:  "17 scenarios on the real Start/accept loop/connection goroutines over the in-memory network: two clients doing CONFIG SET/GET; a client connecting while another CONFIG SETs requirepass; two clients running a command of every executor family (and AUTH sequences) against a race-free double; two clients connecting/disconnecting while the harness enumerates the registry (Conns, ConnByUUID, connection accessors); Stop concurrent with clients mid-command and connecting; Restart with an idle client; Restart after SetRequirePass; two TLS clients (real handshake) doing CONFIG SET while Stop runs; two application goroutines enumerating the registry at once right after a connect, with a further client connecting or with Stop running; two connected clients sending AUTH (one- and two-argument) and SELECT while Stop / Restart closes their connections; an application goroutine calling the configuration API (SetConfig, AppendConfig, RemoveConfig, ConfigString, SetRequirePass, RemoveRequirePass, SetTLSPort, ...) while two clients read the configuration literally and through patterns, write it, connect and authenticate; Stop / Restart sweeping connections whose Close reports an error. Local variables shared with a goroutine through a closure started by a go statement are instrumented like fields. Every schedule within deviation bound 2 (thorough 3) is executed with every field access of the instrumented framework feeding a vector-clock happens-before oracle (edges: go, mutex/RWMutex release-acquire, sync.Map per key, connection write->read, dial->accept, close->EOF/error; scheduler hand-offs are NOT edges); locations found racy become scheduling points and the exploration is repeated until the racy set is stable. A race is an unordered pair of access sites on one location with at least one write; a WaitGroup's first increment from zero and a blocking Wait count as read and write of one location, as in the Go race detector.",
 		Assumptions: []string{
 			"setters documented as pre-start configuration (SetTracer, SetCommandHandler, RegisterExexutor, SetPort) are called before Start only; SetRequirePass before Restart is called by the lifecycle thread between Stop-free calls as the repository's own tests do",
 			"the race-detector stress with 2..32 clients is replaced by exhaustive small scenarios: a race is a pair of accesses, two contending threads exhibit it",
